@@ -199,6 +199,7 @@ pub fn parse_cmd(line: &str) -> Option<Cmd> {
         }
         "DA" => Some(Cmd::DA(a16(1)?)),
         "SD" => Some(Cmd::SD(hx(t.get(1)?)?)),
+        "SF" => Some(Cmd::SF(hx(t.get(1)?)?)),
         "SP16" => Some(Cmd::SetPair(hx(t.get(1)?)? as u8, a16(2)?)),
         _ => None,
     }
